@@ -63,8 +63,8 @@ def r1(ctx):
     flag = [x for x in walk_exprs(fs) if x["k"] == "Assign" and render(x["l"]) == "minus" and render(x["r"]) == "true"]
     okf = False
     for x in flag:
-        g = [t for t in guards_of(fs, x) if t[0] == "if"]
-        okf = okf or any('"-"' in render(t[1]) for t in g)
+        g = [t for t in guards_of(fs, x) if t[0] in ("if", "match")]
+        okf = okf or any('"-"' in guard_text(t) for t in g)
     ctx.obligation(ok and okf)
     ctx.covered("unary minus: flag set on `-`, stored on field / function / value leaves", len(sets), distinct_keys=["minus-sets:%d" % len(sets)])
     if not (ok and okf):
